@@ -47,9 +47,12 @@ def _context():
 
 # ------------------------------------------------------------------ decoding one edge
 
-def _make_vars(mk, rule):
+def _make_vars(mk, rule, parent=None):
     """variables visible to the recipe of `rule`: global sections, `%:` target variables, the
-    rule's own target-specific ones (all written by the real _write_variable, read by rmake)"""
+    rule's own target-specific ones (all written by the real _write_variable, read by rmake).
+    With `parent` (a rule that has `rule`'s target as prerequisite and is the goal): GNU Make hands
+    the parent's target-specific variables down to its prerequisites; they rank above the global
+    values and below pattern-specific and own ones (rmake.LOOKUP_ORDER, validated against make)"""
     out = [('srcdir', '/srcdir'), (',', ',')]
     for sec in MSection:
         syn = MS.clean if sec == MSection.path else MS.shell
@@ -62,15 +65,29 @@ def _make_vars(mk, rule):
             if v is None:
                 return None
             out = [(name.name, v)] + out
+    glob = out
+    pat = []
     for name, value in mk._target_variables:
         w = mk.writer(StringIO())
         mk._write_variable(w, name, value)
         t = w.stream.getvalue()
         head = name.name + ' := '
-        v = rmake.assign_value(t[len(head):-1], out)
+        v = rmake.assign_value(t[len(head):-1], pat + glob)
         if v is None:
             return None
-        out = [(name.name, v)] + out
+        pat = [(name.name, v)] + pat
+    inherited = []
+    if parent is not None:
+        for name, value in (parent.variables or {}).items():
+            w = mk.writer(StringIO())
+            mk._write_variable(w, name, value)
+            t = w.stream.getvalue()
+            head = name.name + ' := '
+            v = rmake.assign_value(t[len(head):-1], inherited + pat + glob)
+            if v is None:
+                return None
+            inherited = [(name.name, v)] + inherited
+    out = pat + inherited + glob
     for name, value in (rule.variables or {}).items():
         w = mk.writer(StringIO())
         mk._write_variable(w, name, value)
@@ -83,15 +100,27 @@ def _make_vars(mk, rule):
     return out
 
 
-def _make_argv(mk, target_suffix):
-    """argv of the first command of the rule building `target_suffix`"""
+def _rule_of(mk, target_suffix):
+    for rule in mk._rules:
+        names = [getattr(t, 'path', t) for t in rule.targets]
+        if any(getattr(n, 'suffix', n) == target_suffix for n in names) and rule.recipe is not None:
+            return rule
+    return None
+
+
+def _make_argv(mk, target_suffix, parent_suffix=None):
+    """argv of the first command of the rule building `target_suffix` (as a prerequisite of the
+    goal `parent_suffix`, if given)"""
+    parent = _rule_of(mk, parent_suffix) if parent_suffix is not None else None
+    if parent_suffix is not None and parent is None:
+        return None
     for rule in mk._rules:
         names = [getattr(t, 'path', t) for t in rule.targets]
         if not any(getattr(n, 'suffix', n) == target_suffix for n in names):
             continue
         if rule.recipe is None:
             continue
-        vars_ = _make_vars(mk, rule)
+        vars_ = _make_vars(mk, rule, parent)
         if vars_ is None:
             return None
         deps = [getattr(d, 'path', d) for d in rule.deps]
@@ -234,6 +263,31 @@ def c_compile(s: str) -> bool:
     if s != '' and s != '-DGLOBAL=1':
         ok = ok and a_make.count(s) >= 1
     return R(ok)
+
+
+def p_prereq(s: str) -> bool:
+    """a step built as a prerequisite of a step with its own options: object_file('gen.c') without
+    options, needed (extra_deps) by object_file('a.c', options=[s]); when Make builds gen.o on the
+    way to a.o it must run the same command as Ninja and compile_commands.json -- GNU Make hands
+    target-specific variables down to prerequisites unless something resets them
+    pre: len(s) == N and no_ctl(s)
+    post: _
+    """
+    build, ctx = _context()
+    ctx['global_options'](['-DGLOBAL=1'], lang='c')
+    dep = ctx['object_file'](file='gen.c')
+    ctx['object_file'](file='a.c', options=[s] if s != '' else [], extra_deps=[dep])
+    edges, mk, nf, cdb = _run_handlers(build)
+    a_make = _make_argv(mk, 'gen.o', 'a.o')
+    a_ninja = _ninja_argv(nf, 'gen.o')
+    entries = [c for c in cdb._commands if c.get('output') == 'gen.o']
+    if a_make is None or a_ninja is None or len(entries) != 1:
+        return R(False)
+    a_cdb = entries[0].get('arguments')
+    if a_cdb is None:
+        return R(False)
+    a_ninja = _strip(a_ninja, NINJA_ONLY)
+    return R(a_make == a_ninja and a_make == list(a_cdb) and '-DGLOBAL=1' in a_make)
 
 
 def _run_handlers(build):
